@@ -139,6 +139,17 @@ theorem C04_project_iff (taskClips annClips : List α) :
     · simp [projectOk, mem_toSet, h, ih]
     · simp [projectOk, mem_toSet, h]
 
+/-- the evaluation order the driver uses (task clips collected once) decides the same -/
+theorem C04_project_fast (taskClips annClips : List α) :
+    projectOkFast taskClips annClips = projectOk taskClips annClips := by
+  induction annClips with
+  | nil => simp [projectOkFast, projectOk]
+  | cons c cs ih =>
+    simp only [projectOkFast, List.all_cons] at ih ⊢
+    by_cases h : c ∈ toSet taskClips
+    · simp [projectOk, h, ih]
+    · simp [projectOk, h]
+
 /-- a clip never starts after it ends -/
 theorem C04_clip_iff (s e : Rat) : clipOk s e = true ↔ s ≤ e := by
   simp [clipOk, Rat.not_lt]
@@ -411,6 +422,126 @@ theorem C04_aoef_numbers_agree :
   · simp [aoefPredictionOk, aoefPredictionArgs, C04_unit_iff, and_assoc]
   · simp [aoefClipTagsOk, aoefClipTagArgs, C04_unit_iff]
 
+/-! ### identifiers shared across kinds
+
+A predicted sound event may carry the uuid of an annotated one (oracle predictions built as
+`SoundEventPrediction(uuid=annotation.uuid, …)`, an AOEF file in which the two tables share a uuid).  Targets
+are only ever compared with annotated, sources with predicted sound events: the two roles never mix. -/
+
+/-- the decision is the conjunction of a decision about targets / annotated sound events and one about
+    sources / predicted sound events -/
+theorem C04_roles_separate (annIds predIds : List α) (ms : List (Option α × Option α)) :
+    checkMatches annIds predIds ms =
+      (checkMatches annIds [] (ms.map fun m => (none, m.2)) && checkMatches [] predIds (ms.map fun m => (m.1, none))) := by
+  have t1 : targets (ms.map fun m => ((none : Option α), m.2)) = targets ms := by
+    simp [targets, List.filterMap_map, Function.comp_def]
+  have s1 : sources (ms.map fun m => ((none : Option α), m.2)) = [] := by
+    simp [sources, List.filterMap_map, Function.comp_def]
+  have t2 : targets (ms.map fun m => (m.1, (none : Option α))) = [] := by
+    simp [targets, List.filterMap_map, Function.comp_def]
+  have s2 : sources (ms.map fun m => (m.1, (none : Option α))) = sources ms := by
+    simp [sources, List.filterMap_map, Function.comp_def]
+  rw [Bool.eq_iff_iff, Bool.and_eq_true, C04_check_matches_iff, C04_check_matches_iff, C04_check_matches_iff,
+    t1, s1, t2, s2]
+  simp
+  constructor
+  · rintro ⟨a, b, c, d⟩; exact ⟨⟨a, c⟩, b, d⟩
+  · rintro ⟨⟨a, c⟩, b, d⟩; exact ⟨a, b, c, d⟩
+
+/-- whether identifiers of predicted sound events coincide with identifiers of annotated ones is irrelevant:
+    renaming the annotated side by any injective `g` and the predicted side by any injective `f` (into one
+    common universe, overlapping or not) leaves the decision unchanged -/
+theorem C04_kinds_independent (f g : α → α) (hf : ∀ x y, f x = f y → x = y) (hg : ∀ x y, g x = g y → x = y)
+    (ac pc : α) (annIds predIds : List α) (ms : List (Option α × Option α)) :
+    clipEvalOk ac pc (annIds.map g) (predIds.map f) (ms.map fun m => (m.1.map f, m.2.map g)) =
+      clipEvalOk ac pc annIds predIds ms := by
+  have ht : targets (ms.map fun m => (m.1.map f, m.2.map g)) = (targets ms).map g := by
+    simp only [targets, List.filterMap_map, List.map_filterMap, Function.comp_def]
+  have hs : sources (ms.map fun m => (m.1.map f, m.2.map g)) = (sources ms).map f := by
+    simp only [sources, List.filterMap_map, List.map_filterMap, Function.comp_def]
+  rw [Bool.eq_iff_iff, C04_clip_eval_iff, C04_clip_eval_iff, ht, hs, nodup_map_of_inj hg, nodup_map_of_inj hf,
+    same_members_map hg, same_members_map hf]
+
+/-- the arrangements with one identifier `x` used by an annotated *and* a predicted sound event: the pairing
+    that mentions both is accepted (it is not a duplicate); a match that mentions only one of the two is
+    rejected (the other one is never mentioned); a source `x` does not stand in for the unmatched annotated
+    `x`, nor a target `x` for the unmatched predicted `x` -/
+theorem C04_shared_identifier (c x : α) :
+    clipEvalOk c c [x] [x] [(some x, some x)] = true ∧
+    clipEvalOk c c [x] [x] [(some x, none), (none, some x)] = true ∧
+    clipEvalOk c c [x] [x] [(some x, none)] = false ∧
+    clipEvalOk c c [x] [x] [(none, some x)] = false ∧
+    clipEvalOk c c [x] [] [(some x, none)] = false ∧
+    clipEvalOk c c [] [x] [(none, some x)] = false := by
+  simp [clipEvalOk, clipsMatch, checkMatches, toSet, setEq]
+
+/-! ### histories: several constructions in one process on objects that are reused
+
+`SoundeventModel/RelationalHistory.lean`: a store of live `ClipAnnotation` / `ClipPrediction` objects that are
+changed in place, assigned to, copied; every `ClipEvaluation` is constructed from the objects as they are. -/
+
+/-- a construction leaves every object as it was -/
+theorem C04_history_eval_no_effect (st : Store) (a p : Nat) (ms : List MatchRow) (sc : Option Rat) :
+    (HStep.eval a p ms sc).exec st = st := rfl
+
+/-- the verdict of a construction is the decision on what the two objects carry at that moment (with
+    `C04_arrangement_iff`: same clip, every sound event they list *now* mentioned exactly once, nothing foreign,
+    numbers in range) — whatever was constructed, changed or copied before, and the steps after it see the
+    store the steps before it left -/
+theorem C04_history_verdict (st : Store) (pre post : List HStep) (a p : Nat) (ms : List MatchRow)
+    (sc : Option Rat) (A P : Coll)
+    (hA : (execAll st pre).get a = some A) (hP : (execAll st pre).get p = some P) :
+    runHistory st (pre ++ HStep.eval a p ms sc :: post) =
+      runHistory st pre ++
+        some (ClipEvalArr.accepted ⟨A.clip, P.clip, A.ids, P.ids, ms, sc⟩) :: runHistory (execAll st pre) post := by
+  rw [runHistory_append]
+  simp [runHistory, HStep.verdict, HStep.exec, arrangementOf, hA, hP]
+
+/-- constructions do not interfere: dropping one construction from a session leaves every other verdict
+    unchanged (no verdict depends on which evaluations were built before) -/
+theorem C04_history_constructions_do_not_interfere (st : Store) (pre post : List HStep) (e : HStep)
+    (he : e.isEval = true) :
+    ∃ v, runHistory st (pre ++ e :: post) = runHistory st pre ++ v :: runHistory (execAll st pre) post ∧
+         runHistory st (pre ++ post) = runHistory st pre ++ runHistory (execAll st pre) post := by
+  cases e with
+  | eval a p ms sc =>
+    refine ⟨(arrangementOf (execAll st pre) a p ms sc).map ClipEvalArr.accepted, ?_, runHistory_append ..⟩
+    rw [runHistory_append]
+    simp [runHistory, HStep.verdict, HStep.exec]
+  | _ => simp [HStep.isEval] at he
+
+/-- after `sound_events` of an object was changed (in place or by assignment) the object carries the new list
+    and its clip; every other object is untouched -/
+theorem C04_history_set_ids (st : Store) (h : Nat) (ids : List Id) (c : Coll) (hc : st.get h = some c) :
+    ((HStep.setIds h ids).exec st).get h = some { c with ids := ids } ∧
+    ∀ h', h' ≠ h → ((HStep.setIds h ids).exec st).get h' = st.get h' := by
+  simp only [HStep.exec, hc]
+  exact ⟨Store.get_put_same .., fun h' hne => Store.get_put_other _ _ hne⟩
+
+/-- a copy carries what the source carried (with the replaced list, if any); the source and every other
+    object are untouched — in particular nothing the source remembered is valid for the copy -/
+theorem C04_history_copy (st : Store) (src dst : Nat) (ids : Option (List Id)) (c : Coll)
+    (hc : st.get src = some c) :
+    ((HStep.copy src dst ids).exec st).get dst = some { c with ids := ids.getD c.ids } ∧
+    ∀ h', h' ≠ dst → ((HStep.copy src dst ids).exec st).get h' = st.get h' := by
+  simp only [HStep.exec, hc]
+  exact ⟨Store.get_put_same .., fun h' hne => Store.get_put_other _ _ hne⟩
+
+/-- non-vacuity (the session of seeded C04-7): an annotation object is used, a sound event is appended to it,
+    the same matches are now incomplete and the completed matches are accepted; a copy with a longer list
+    behaves the same, the original still accepts the old matches -/
+example : runHistory []
+    [.new 0 "c" ["a0"], .new 1 "c" ["p0"],
+     .eval 0 1 [⟨some "p0", some "a0", 1 / 2, none⟩] none,
+     .setIds 0 ["a0", "a1"],
+     .eval 0 1 [⟨some "p0", some "a0", 1 / 2, none⟩] none,
+     .eval 0 1 [⟨some "p0", some "a0", 1 / 2, none⟩, ⟨none, some "a1", 0, none⟩] none,
+     .copy 1 2 (some ["p0", "p1"]),
+     .eval 0 2 [⟨some "p0", some "a0", 1 / 2, none⟩, ⟨none, some "a1", 0, none⟩] none,
+     .eval 0 1 [⟨some "p0", some "a0", 1 / 2, none⟩, ⟨none, some "a1", 0, none⟩] none,
+     .eval 0 2 [⟨some "p0", some "a0", 1 / 2, none⟩, ⟨some "p1", some "a1", 0, none⟩] none]
+    = [some true, some false, some true, some false, some true, some true] := by decide +kernel
+
 /-! ### non-vacuity -/
 example : clipEvalOk "c" "c" ["a0", "a1"] ["p0"] [(some "p0", some "a0"), (none, some "a1")] = true := by decide
 example : clipEvalOk "c" "c" ["a0", "a1"] ["p0"] [(some "p0", some "a0")] = false := by decide
@@ -418,6 +549,7 @@ example : clipEvalOk "c" "c" ["a0", "a1"] ["p0", "p1"] [(some "p0", some "a0"), 
 example : clipEvalOk "c" "d" [] [] [] = false := by decide
 example : clipEvalOk "c" "c" [] [] [] = true := by decide
 example : clipEvalOk "c" "c" ["a0", "a0"] [] [(none, some "a0")] = true := by decide
+example : clipEvalOk "c" "c" ["x"] ["x"] [(some "x", some "x")] = true ∧ clipEvalOk "c" "c" ["x"] ["x"] [(some "x", none)] = false := by decide
 example : matchOk ⟨some "p", none, 1, some 0⟩ = true := by decide +kernel
 example : matchOk ⟨some "p", none, 1 + 1 / 4503599627370496, none⟩ = false := by decide +kernel
 example : matchOk ⟨some "p", some "a", 0, some (-1 / 4503599627370496)⟩ = false := by decide +kernel
